@@ -133,7 +133,8 @@ def run(res):
         n = rng.choice([1, 200, 10 ** 6, 48000, rng.randrange(1, 2 ** 32)])
         dd = rng.choice([1, 3, 7, rng.randrange(1, 10 ** 9 + 1)])
         t = rng.randrange(0, Y9999)
-        k = t * n // dd
+        # at the start of second t, or anywhere inside it (the picosecond part is then a large residue)
+        k = t * n // dd + rng.choice([0, rng.randrange(0, max(1, n // dd)), max(0, n // dd - 1)])
         if k < 2 ** 63 and k * dd // n < Y9999:
             cal.append((k, n, dd))
     model = common.run_model("timeconv", [[3, k, n, dd] for k, n, dd in cal])
